@@ -74,7 +74,7 @@ var c02Alphabet = []struct {
 	w int
 }{
 	{"a", 6}, {"b", 3}, {" ", 3}, {"\t", 1}, {"x", 2}, {"=", 1}, {"1", 1},
-	{"é", 3}, {"ж", 1}, {"中", 3}, {"€", 1}, {"😀", 3}, {"𝄞", 1},
+	{"é", 3}, {"ж", 1}, {"中", 3}, {"€", 1}, {"क", 2}, {"😀", 3}, {"𝄞", 1}, // क = E0 A4 95: the smallest three-byte lead
 	{"\n", 6}, {"\r\n", 3}, {"\r", 2},
 }
 
@@ -488,8 +488,13 @@ func runC02(res *lib.Result, tier string, seed int64, args []string) error {
 				}
 				err = sess.DidOpen(rel, o.text)
 			case 's':
-				// the editor writes the buffer, then tells the server
-				os.WriteFile(filepath.Join(dir, rel), []byte(o.text), 0o644)
+				// the editor writes the buffer, then tells the server; a file kept in "UTF-8 with BOM" starts with the
+				// mark on disk, which is not part of the text the client holds
+				if r.Intn(3) == 0 {
+					os.WriteFile(filepath.Join(dir, rel), []byte("\xEF\xBB\xBF"+o.text), 0o644)
+				} else {
+					os.WriteFile(filepath.Join(dir, rel), []byte(o.text), 0o644)
+				}
 				err = sess.DidSave(rel, o.text)
 			case 'x':
 				err = sess.DidClose(rel)
